@@ -407,6 +407,15 @@ impl Ctx {
             self.emit(v);
         }
     }
+    /// The oracle could not decide or disagrees with its independent cross-check:
+    /// the driver turns this into an inconclusive run (never a verdict).
+    pub fn harness_error(&mut self, what: &str, detail: Value) {
+        self.add("harness-errors", 1);
+        if self.counters["harness-errors"] <= 10 {
+            let v = json!({"t":"harness","what":what,"lane":self.lane,"idx":self.idx,"detail":detail});
+            self.emit(v);
+        }
+    }
     /// Log a sample of a held case (first 3 per lane).
     pub fn sample(&mut self, detail: impl FnOnce() -> Value) {
         let n = self.samples_per_lane.entry(self.lane.clone()).or_insert(0);
